@@ -731,10 +731,21 @@ class Engine:
             st.env[s.targets[0].id] = SList(z3.IntVal(0), Lifted.fresh(tmpl, s.targets[0].id))
             return [Outcome("normal", st)]
 
+        if isinstance(s.value, ast.Call) and ast.unparse(s.value.func) == "set" and not s.value.args and not s.value.keywords:
+            # set(): the element type comes from the contract's `locals` (a by-value set needs it before the first add)
+            if not (len(s.targets) == 1 and isinstance(s.targets[0], ast.Name) and s.targets[0].id in self.c.locals):
+                raise EngineError("set() assigned to a name whose element type the contract does not declare (locals=...)")
+            tmpl = self.make_param(V.fresh_name(s.targets[0].id + "_elem"), self.c.locals[s.targets[0].id], st)
+            st.env[s.targets[0].id] = self.empty_set(tmpl)
+            return [Outcome("normal", st)]
+
         def cont(v, st2):
             for t in s.targets:
                 self.assign(t, v, st2, s)
         return self.with_raises(lambda: self.ev(s.value, st, False), st, cont, s)
+
+    def empty_set(self, tmpl):
+        raise EngineError("set(): model not loaded")
 
     def st_AnnAssign(self, s, st):
         if s.value is None:
